@@ -362,6 +362,20 @@ class SymT:
                 if v[1] == "natlist":
                     return (v[0] if f.attr == "ravel" else f"(cumsum {v[0]})", "natlist")
             if isinstance(f, ast.Attribute) and isinstance(f.value, ast.Name) and f.value.id == "np":
+                kws = {k.arg for k in n.keywords}
+                cmpop = {"greater_equal": "≥", "less_equal": "≤", "greater": ">", "less": "<"}.get(f.attr)
+                if cmpop and len(n.args) == 2 and kws <= {"out"}:
+                    # element-wise ufunc read at one element; the `out=` buffer is an allocation detail
+                    a_, b_ = self.expr(n.args[0]), self.expr(n.args[1])
+                    return (f"({self.cast(a_, 'rat')} {cmpop} {self.cast(b_, 'rat')})", "prop")
+                if f.attr in ("logical_and", "logical_or") and len(n.args) == 2 and kws <= {"out"}:
+                    a_, b_ = self.expr(n.args[0]), self.expr(n.args[1])
+                    if a_[1] == "prop" and b_[1] == "prop":
+                        return (f"({a_[0]} {'∧' if f.attr == 'logical_and' else '∨'} {b_[0]})", "prop")
+                if f.attr in ("min", "max") and len(n.args) == 1 and not n.keywords:
+                    v = self.expr(n.args[0])
+                    if v[1] == "ratlist":
+                        return (f"({'listMin' if f.attr == 'min' else 'listMax'} {v[0]})", "optrat")
                 if f.attr == "atleast_1d" and len(n.args) == 1 and not n.keywords:
                     v = self.expr(n.args[0])
                     if v[1] == "natlist":
@@ -514,6 +528,8 @@ class SymT:
                     self.env[t.id] = ("<tuple>", "tuple:" + str(len(v.elts)))
                 elif isinstance(t, ast.Name) and isinstance(v, ast.List) and not v.elts:
                     self.lists[t.id] = []
+                elif isinstance(t, ast.Name) and any(isinstance(x, ast.Attribute) and x.attr == "empty_like" for x in ast.walk(v)):
+                    continue          # pre-allocated output buffers (only ever used through `out=`)
                 elif isinstance(t, ast.Name):
                     self.env[t.id] = self.expr(v)
                 else:
@@ -607,8 +623,9 @@ def translate_typed(path, name, lean_name, params, rettypes, ignore_calls=(), st
     if outs is None or len(outs) != len(rts):
         raise Untranslatable(f"{name}: expected {len(rts)} returned value(s)")
     lean_ty = {"rat": "Rat", "int": "Int", "bool": "Bool", "str": "String", "list:nat×nat": "List (Nat × Nat)", "nat": "Nat",
-               "natlist": "List Nat"}
-    vals = ", ".join(SymT.cast(o, t) if t in ("rat", "int") else o[0] for o, t in zip(outs, rts))
+               "natlist": "List Nat", "ratlist": "List Rat", "optrat": "Option Rat"}
+    vals = ", ".join(SymT.cast(o, t) if t in ("rat", "int") else (f"decide {o[0]}" if (t == "bool" and o[1] == "prop") else o[0])
+                     for o, t in zip(outs, rts))
     rtype = " × ".join(lean_ty[t] for t in rts) if rts else "Unit"
 
     seen, args = set(), []
@@ -660,6 +677,12 @@ def generate_coords():
                         [("region[0]", "w", "rat"), ("region[1]", "e", "rat"), ("region[2]", "s", "rat"), ("region[3]", "n", "rat")], []),
         translate_typed("verde/coordinates.py", "_check_geographic_coordinates", "geoCoordBad",
                         [("coordinates[0]", "lon", "rat"), ("coordinates[1]", "lat", "rat")], []),
+        translate_typed("verde/coordinates.py", "inside", "insidePt",
+                        [("region[0]", "w", "rat"), ("region[1]", "e", "rat"), ("region[2]", "s", "rat"), ("region[3]", "n", "rat"),
+                         ("coordinates[0]", "east", "rat"), ("coordinates[1]", "north", "rat")], ["bool"], ignore_calls=("check_region",)),
+        translate_typed("verde/coordinates.py", "get_region", "getRegion",
+                        [("coordinates[0]", "east", "ratlist"), ("coordinates[1]", "north", "ratlist")],
+                        ["optrat", "optrat", "optrat", "optrat"]),
         translate_typed("verde/coordinates.py", "shape_to_spacing", "shapeToSpacing",
                         [("region[0]", "w", "rat"), ("region[1]", "e", "rat"), ("region[2]", "s", "rat"), ("region[3]", "n", "rat"),
                          ("shape[0]", "nNorth", "int"), ("shape[1]", "nEast", "int"), ("pixel_register", "pixel", "bool")],
